@@ -119,6 +119,10 @@ extern int CompressLine(
 
 extern void ExpandLine(char const* TokNam, unsigned TokenNum, struct as_dynstr* p_str);
 
+typedef char const* (*tTokenTextFnc)(unsigned TokenNum, void* pUser);
+
+extern void ExpandLineTokens(struct as_dynstr* p_str, tTokenTextFnc GetText, void* pUser);
+
 extern void KillCtrl(char* Line);
 
 extern void AddCopyright(char const* NewLine);
